@@ -374,20 +374,30 @@ func (x *Exec) mergeStates(hint string, edges []inEdge) (*State, error) {
 	}
 	for _, k := range sortedKeys(ghostKeys) {
 		k := k
-		ok := true
+		var have []inEdge
 		for _, e := range edges {
-			if _, has := e.st.ghost[k]; !has {
-				ok = false
+			if _, has := e.st.ghost[k]; has {
+				have = append(have, e)
 			}
 		}
-		if !ok {
+		if len(have) == len(edges) {
+			v, err := x.mergeVal("g."+k, edges, func(s *State) *Val { return s.ghost[k] })
+			if err != nil {
+				return nil, err
+			}
+			out.ghost[k] = v
 			continue
 		}
-		v, err := x.mergeVal("g."+k, edges, func(s *State) *Val { return s.ghost[k] })
-		if err != nil {
-			return nil, err
+		// defined on some paths only (loop ghosts of a loop that an early exit skipped): arbitrary on the others
+		first := have[0].st.ghost[k]
+		if !isSMTVal(first) {
+			continue
 		}
-		out.ghost[k] = v
+		merged := x.havocLike(first, "g."+k)
+		for _, e := range have {
+			x.asserts = append(x.asserts, tImp(e.cond, valEqRaw(merged, e.st.ghost[k])))
+		}
+		out.ghost[k] = merged
 	}
 	// iterators
 	for _, e := range edges {
